@@ -314,6 +314,7 @@ type outcome struct {
 	trace []ckit.Event
 	// raw create / replace messages for id numbering
 	createMsgs []*types.CreateWorkloadMessage
+	slow       bool // finished only after the soft deadline
 }
 
 func (w *world) exec(o op, plan ckit.Plan) outcome {
@@ -324,7 +325,7 @@ func (w *world) exec(o op, plan ckit.Plan) outcome {
 	for _, x := range cl.Snapshot().Workloads {
 		nodeOf[x.ID] = x.Node
 	}
-	kind, msg := hx.Guard(25*time.Second, func() {
+	kind, msg := guard2(25*time.Second, 150*time.Second, func() {
 		out.trace = cl.Traced(plan, func() {
 			switch o.s("op") {
 			case "create":
@@ -435,7 +436,11 @@ func (w *world) exec(o op, plan ckit.Plan) outcome {
 			}
 		})
 	})
-	if kind != "" {
+	switch kind {
+	case "slow": // finished, but only after the soft deadline: the machine is overloaded, not the code
+		out.slow = true
+	case "":
+	default:
 		out.ret = kind + ":" + msg
 		if kind == "timeout" {
 			w.hung = true
@@ -443,6 +448,67 @@ func (w *world) exec(o op, plan ckit.Plan) outcome {
 		}
 	}
 	return out
+}
+
+// guard2 runs f; "" = finished within soft, "slow" = finished within hard, "timeout" = did not finish
+// within hard (the goroutine is leaked), "panic" = f panicked.
+func guard2(soft, hard time.Duration, f func()) (kind, msg string) {
+	done := make(chan [2]string, 1)
+	go func() {
+		defer func() {
+			if r := recover(); r != nil {
+				done <- [2]string{"panic", fmt.Sprint(r)}
+			}
+		}()
+		f()
+		done <- [2]string{"", ""}
+	}()
+	select {
+	case r := <-done:
+		return r[0], r[1]
+	case <-time.After(soft):
+	}
+	select {
+	case r := <-done:
+		if r[0] == "" {
+			return "slow", ""
+		}
+		return r[0], r[1]
+	case <-time.After(hard - soft):
+		return "timeout", ""
+	}
+}
+
+// infra patterns: failures of the embedded etcd / its client under load that nobody injected
+var infraPatterns = []string{"request timed out", "etcdserver:", "too many requests", "connection refused", "transport is closing",
+	"leader changed", "mvcc:", "lease not found", "unavailable"}
+var ctxPatterns = []string{"context deadline exceeded", "context canceled"}
+
+// infraFailure reports whether a run was disturbed by the infrastructure: it finished only after the
+// soft deadline, or a call failed (not injected) with an etcd / timeout error. In cancellation runs the
+// context errors are the intended ones and do not count.
+func infraFailure(out *outcome, cancelRun bool) bool {
+	if out.slow {
+		return true
+	}
+	for _, e := range out.trace {
+		if !e.Failed || e.Injected || e.Parked || e.Err == "" {
+			continue
+		}
+		for _, p := range infraPatterns {
+			if strings.Contains(e.Err, p) {
+				return true
+			}
+		}
+		if !cancelRun {
+			for _, p := range ctxPatterns {
+				if strings.Contains(e.Err, p) {
+					return true
+				}
+			}
+		}
+	}
+	return false
 }
 
 var lockKinds = map[string]bool{"lock": true, "locked": true, "unlock": true, "trylock": true}
@@ -1051,7 +1117,8 @@ func TestGen(t *testing.T) {
 		replay(t, rp, out)
 		return
 	}
-	cl := ckit.NewCluster(t, ckit.Options{TraceLocks: true})
+	// generous lock / transaction timeouts: the embedded etcd can be slow when the machine is overloaded
+	cl := ckit.NewCluster(t, ckit.Options{TraceLocks: true, LockTimeout: 60 * time.Second, GlobalTimeout: 120 * time.Second})
 	d := &driver{t: t, cl: cl, r: r, out: out, budget: budget}
 	d.corpus()
 	if !d.hung {
@@ -1079,10 +1146,12 @@ func TestGen(t *testing.T) {
 		}
 		d.hung = d.hung || w.hung
 	}
-	t.Logf("histories=%d cases=%d", hist, out.N)
+	t.Logf("histories=%d cases=%d infra-retried=%d infra-dropped=%d", hist, out.N, d.infraRetried, d.infraDropped)
 }
 
 type driver struct {
+	infraRetried int  // runs repeated from the restored pre-state because the infrastructure failed
+	infraDropped int  // runs given up after 3 such attempts
 	hung   bool // an operation never returned: stop
 	t      *testing.T
 	cl     *ckit.Cluster
@@ -1094,10 +1163,31 @@ type driver struct {
 // step runs one operation fault-free and then, from the restored pre-state, once per fault address
 // of the fault-free trace (all of them, or 3 sampled ones); the history continues from the
 // fault-free post-state, or (keepFaulty) from the last faulty one.
+// execClean runs the operation; a run disturbed by the infrastructure (overloaded embedded etcd) is
+// repeated from the restored pre-state, at most 3 times, then dropped (ok = false).
+func (d *driver) execClean(w *world, o op, plan ckit.Plan, cancelRun bool, restore func()) (outcome, bool) {
+	for attempt := 0; attempt < 3; attempt++ {
+		res := w.exec(o, plan)
+		if w.hung || !infraFailure(&res, cancelRun) {
+			return res, true
+		}
+		d.infraRetried++
+		time.Sleep(time.Duration(attempt+1) * time.Second)
+		restore()
+	}
+	d.infraDropped++
+	return outcome{}, false
+}
+
 func (d *driver) step(w *world, o op, pre snapJ, base string, setup []map[string]any, all, keepFaulty bool) {
 	cl, out, r := d.cl, d.out, d.r
 	cpBefore := cl.Checkpoint()
-	res := w.exec(o, ckit.Plan{})
+	res, ok := d.execClean(w, o, ckit.Plan{}, false, func() { cl.Restore(cpBefore); w.next = pre.Next })
+	if !ok {
+		cl.Restore(cpBefore)
+		w.next = pre.Next
+		return
+	}
 	args, _ := w.analyse(o, &res, pre, nil)
 	post := w.snap()
 	setCap(o, args, post)
@@ -1130,7 +1220,10 @@ func (d *driver) step(w *world, o op, pre snapJ, base string, setup []map[string
 		cl.Restore(cpBefore)
 		w.next = pre.Next
 		a := a
-		fres := w.exec(o, ckit.Plan{Fail: []ckit.Addr{a}})
+		fres, ok := d.execClean(w, o, ckit.Plan{Fail: []ckit.Addr{a}}, false, func() { cl.Restore(cpBefore); w.next = pre.Next })
+		if !ok {
+			continue
+		}
 		fired := false
 		for _, e := range fres.trace {
 			fired = fired || e.Injected
@@ -1171,8 +1264,16 @@ func (d *driver) step(w *world, o op, pre snapJ, base string, setup []map[string
 			tc := newTrigCtx(cl.Ctx(), deadline)
 			w.callCtx = tc
 			a := a
-			cres := w.exec(o, ckit.Plan{Hook: &a, HookAfter: after, HookFn: tc.fire})
+			cres, ok := d.execClean(w, o, ckit.Plan{Hook: &a, HookAfter: after, HookFn: func() { tc.fire() }}, true, func() {
+				cl.Restore(cpBefore)
+				w.next = pre.Next
+				tc = newTrigCtx(cl.Ctx(), deadline)
+				w.callCtx = tc
+			})
 			w.callCtx = nil
+			if !ok {
+				continue
+			}
 			cargs, _ := w.analyse(o, &cres, pre, nil)
 			cpost := w.snap()
 			setCap(o, cargs, post)
@@ -1339,6 +1440,18 @@ func (d *driver) concurrent(trials int) {
 				return map[string]any{"node": x.Node, "id": x.ID, "answer": answer}
 			}
 			return map[string]any{"first": x.Node, "groups": []map[string]any{{"node": x.Node, "ids": []int{x.ID}}}}
+		}
+		infra := false
+		for _, e := range trace {
+			if e.Failed && !e.Injected && e.Err != "" {
+				for _, p := range append(append([]string{}, infraPatterns...), ctxPatterns...) {
+					infra = infra || strings.Contains(e.Err, p)
+				}
+			}
+		}
+		if infra {
+			d.infraDropped++
+			continue
 		}
 		post := w.snap()
 		d.out.Emit(&kase{ID: fmt.Sprintf("conc-%d", tr), Op: "concurrent",
